@@ -112,6 +112,10 @@ fn generate(seed: u64, tier: Tier, em: &mut Emitter) {
             }
         }
     }
+    // a slow first partition: later partitions finish their local phase first (4 threads)
+    for (src, steps, parts) in slow_head_cases(full) {
+        emit_pair(em, &src, &steps, parts, &["sweep", "slow_first_partition"]);
+    }
     // more than 64 effective partitions
     for (src, steps, parts) in many_partition_cases(full) {
         emit_pair(em, &src, &steps, parts, &["sweep", "many_partitions"]);
